@@ -81,6 +81,14 @@ func genOID(rng *rand.Rand) (encasn1.ObjectIdentifier, string) {
 		}
 		return o, "arbitrary"
 	}
+	if rng.Intn(3) == 0 {
+		// long object identifiers (a 16-arc Microsoft-template style OID: more than 32 encoded octets)
+		o := encasn1.ObjectIdentifier{1, 3, 6, 1, 4, 1, 311, 21, 8}
+		for k := 6 + rng.Intn(8); k > 0; k-- {
+			o = append(o, 1000000+rng.Intn(15000000))
+		}
+		return o, "long"
+	}
 	return encasn1.ObjectIdentifier{2, 999, 3}, "joint-iso"
 }
 
